@@ -18,6 +18,7 @@ import random
 
 import engine
 import scen
+import s_peak_shaving
 from c10 import us, f, r_battery, r_cost, compare as _compare
 
 engine.use_repo()
@@ -31,10 +32,11 @@ RULE = ("scenarios from the grammar in harness/scen.py for strategy distributed 
         "call and every strategy step of every run is one model evaluation; non-trivial = a step in which a station or "
         "battery carries power; distinct = distinct (seed, index)")
 ASSUMPTIONS = ["model vs implementation: floats compared by value (+0.0 == -0.0), no tolerance",
-               "sub-strategies other than greedy / balanced are not modelled (strategy_opps / strategy_deps accept any "
-               "strategy name); a sub-strategy whose `interval` option differs from the parent's is not modelled",
-               "of world_state.future_events only the arrival vehicle events are rendered (the only ones step reads; "
-               "the per-connector event copies handed to the sub-strategy are not read by greedy / balanced)"]
+               "sub-strategies greedy / balanced / peak_shaving are modelled; peak_load_window, balanced_market, flex_window, "
+               "schedule, distributed as sub-strategy are not (the harness raises NotImplementedError, never a silent pass); "
+               "a sub-strategy whose `interval` option differs from the parent's is not modelled",
+               "world_state.future_events: the arrival vehicle events always (the ones step reads itself); every event when a "
+               "peak_shaving sub-strategy without perfect foresight reads the per-connector copies (new_world_state.future_events)"]
 UNPROVED = []
 RULES = {"Greedy": "g", "Balanced": "b"}
 
@@ -124,12 +126,32 @@ def render_init_result(strat):
 
 
 def r_sub(strat, sub):
-    rule = RULES.get(type(sub).__name__)
-    if rule is None:
-        raise NotImplementedError("sub-strategy %s is not modelled" % type(sub).__name__)
+    name = type(sub).__name__
+    rule = RULES.get(name)
+    if rule is None and name != "PeakShaving":
+        raise NotImplementedError("sub-strategy %s is not modelled" % name)
     if sub.interval != strat.interval:
         raise NotImplementedError("sub-strategy interval differs from the parent's")
-    return [rule, f(sub.EPS), f(sub.PRICE_THRESHOLD), f(sub.ts_per_hour), str(int(sub.interval.total_seconds() * 1000000))]
+    parts = [rule or "g", f(sub.EPS), f(sub.PRICE_THRESHOLD), f(sub.ts_per_hour),
+             str(int(sub.interval.total_seconds() * 1000000))]
+    if name == "PeakShaving":
+        import datetime
+        parts += ["S", str(sub.HORIZON // datetime.timedelta(microseconds=1)), "1" if sub.perfect_foresight else "0",
+                  str(s_peak_shaving.FUEL)]
+    else:
+        parts.append("N")
+    return parts
+
+
+def sub_events(sub):
+    """`self.events` of a PeakShaving sub-strategy with perfect foresight (its own list, popped by step_gc)"""
+    if type(sub).__name__ == "PeakShaving" and sub.perfect_foresight:
+        return list(sub.events)
+    return []
+
+
+def r_evlist(evs):
+    return " ".join([str(len(evs))] + [s_peak_shaving.r_event(e) for e in evs])
 
 
 def render_world(strat):
@@ -146,6 +168,7 @@ def render_world(strat):
     parts += r_stations(ws) + r_vehicles(ws) + r_batteries(ws, False)
     parts.append(r_ids({g: list(d.keys()) for g, d in strat.connected.items()}))
     parts.append(r_init_state(strat, " "))
+    parts += [r_evlist(sub_events(strat.strat_opps)), r_evlist(sub_events(strat.strat_deps))]
     evs = [e for e in ws.future_events if type(e) is events.VehicleEvent and e.event_type == "arrival"]
     parts.append(str(len(evs)))
     for e in evs:
@@ -154,6 +177,9 @@ def render_world(strat):
                   "S " + f(e.update["soc_delta"]) if "soc_delta" in e.update else "N",
                   "S " + f(e.update["desired_soc"]) if "desired_soc" in e.update else "N",
                   "1" if "estimated_time_of_departure" in e.update else "0"]
+    needs_future = any(type(x).__name__ == "PeakShaving" and not x.perfect_foresight
+                       for x in (strat.strat_opps, strat.strat_deps))
+    parts.append(r_evlist(list(ws.future_events) if needs_future else []))
     return " ".join(parts)
 
 
@@ -166,7 +192,8 @@ def render_result(strat, cmds):
             + " | " + " ".join(f(v.battery.soc) for v in ws.vehicles.values())
             + " | " + " ".join(f(b.soc) for b in ws.batteries.values())
             + " | " + r_ids({g: list(d.keys()) for g, d in strat.connected.items()})
-            + " | " + " ".join(f(cs.current_power) for cs in strat.virtual_cs.values()))
+            + " | " + " ".join(f(cs.current_power) for cs in strat.virtual_cs.values())
+            + " | %d %d" % (len(sub_events(strat.strat_opps)), len(sub_events(strat.strat_deps))))
 
 
 @contextlib.contextmanager
@@ -218,6 +245,12 @@ def tie(full=None):
                 continue
             occupied = any(v.connected_charging_station and ws.charging_stations[v.connected_charging_station].parent == gid
                            for v in ws.vehicles.values())
+            if type(ent[1]).__name__ == "PeakShaving" and (occupied or gid in self.gc_battery):
+                box["stats"].add("ps_%s%s%s" % (ent[0], "" if ent[1].perfect_foresight else "_no_foresight",
+                                                "" if occupied else "_vacant_battery"))
+                if any(abs(res["commands"].get(c, 0)) > 1e-5 for c, cs in ws.charging_stations.items()
+                       if cs.parent == gid):
+                    box["stats"].add("ps_%s_charges" % ent[0])
             if gid in self.gc_battery:
                 box["stats"].add("%s_battery_%s" % (ent[0], "occupied" if occupied else "vacant"))
                 if len(self.gc_battery[gid]) > 1:
@@ -237,7 +270,16 @@ def tie(full=None):
         return res
     cls.__init__, cls.step = init, step
     try:
-        yield box
+        # a PeakShaving sub-strategy is tied on its own as well (its `__init__` through `init_peak_shaving`, its
+        # `step()` on every virtual world through `step_peak_shaving`)
+        with s_peak_shaving.tie(full, with_oracle=False) as ps:
+            try:
+                yield box
+            finally:
+                box["lines"] += ps["lines"]
+                box["impl"] += ps["impl"]
+                if ps["lines"]:
+                    box["stats"].add("peak_shaving_substrategy")
     finally:
         cls.__init__, cls.step = orig_init, orig_step
 
@@ -259,6 +301,22 @@ def sub_options(rng):
     return o
 
 
+def ps_options(o, seed, i):
+    """a third of the scenarios delegate to peak_shaving on one or both sides (own HORIZON / perfect_foresight)"""
+    r2 = random.Random("S_DISTRIBUTED:sub:%s:%s" % (seed, i))
+    if i % 3 != 2:
+        return
+    for k in r2.choice([["deps"], ["opps"], ["deps", "opps"]]):
+        o["strategy_" + k] = "peak_shaving"
+        so = dict(o.get("strategy_options_" + k, {}))
+        if r2.random() < 0.5:
+            so["HORIZON"] = r2.choice([0.5, 1, 2, 3, 6, 12])
+        if r2.random() < 0.35:
+            so["perfect_foresight"] = False
+        if so:
+            o["strategy_options_" + k] = so
+
+
 def gen_full(seed, i):
     rng = random.Random("S_DISTRIBUTED:%s:%s" % (seed, i))
     feats = {}
@@ -269,6 +327,7 @@ def gen_full(seed, i):
     full = scen.gen_scenario(rng, strategy="distributed", n_gc=rng.choice([1, 1, 2, 2, 3]), feasible=rng.random() < 0.85,
                              features=feats, max_steps=36)
     full["options"].update(sub_options(rng))
+    ps_options(full["options"], seed, i)
     if i % 16 == 7:
         # a tolerance that vehicle SoCs of the grammar hit exactly (desired 1.0, SoC 0.5): boundary of `> self.EPS`
         full["options"]["EPS"] = 0.5
